@@ -103,7 +103,7 @@ Definition radix_val (base : N) (l : list N) : N :=
   fold_left (fun acc c => acc * base + hex_val c) l 0.
 
 Inductive numlit :=
-| NDec (mant : N) (e10 : Z)       (* mant * 10^e10 *)
+| NDec (mant : N) (digits : list N) (e10 : Z)       (* mant * 10^e10; digits = the decimal digits of mant as written *)
 | NInt (v : N).                    (* 0x / 0b / 0o integer *)
 
 (* ast.Num / parseNum: None = "invalid num literal" *)
@@ -119,7 +119,7 @@ Definition num_parse (t : list N) : option numlit :=
         | Some (ip, fp, e) =>
             let mant := digits_val (ip ++ fp) 0 in
             let e10 := (e - Z.of_nat (len fp))%Z in
-            if dec_overflows mant e10 then None else Some (NDec mant e10)
+            if dec_overflows mant e10 then None else Some (NDec mant (ip ++ fp) e10)
         | None => None
         end
   | _ =>
@@ -127,7 +127,7 @@ Definition num_parse (t : list N) : option numlit :=
       | Some (ip, fp, e) =>
           let mant := digits_val (ip ++ fp) 0 in
           let e10 := (e - Z.of_nat (len fp))%Z in
-          if dec_overflows mant e10 then None else Some (NDec mant e10)
+          if dec_overflows mant e10 then None else Some (NDec mant (ip ++ fp) e10)
       | None => None
       end
   end.
